@@ -9,6 +9,8 @@ import (
 	"flag"
 	"fmt"
 	"go/ast"
+	"go/parser"
+	"go/token"
 	"os"
 	"os/exec"
 	"path/filepath"
@@ -301,10 +303,7 @@ func (r *runner) load() error {
 }
 
 func (r *runner) initPkgs() []string {
-	if len(r.spec.InitPkgs) > 0 {
-		return r.spec.InitPkgs
-	}
-	return []string{"github.com/koordinator-sh/koordinator/", "fmt", "k8s.io/apimachinery/pkg/api/resource", "errors", "strconv", "unicode", "unicode/utf8", "sort", "math", "math/bits", "time", "k8s.io/api/core/v1", "k8s.io/apimachinery/pkg/util/sets", "k8s.io/apimachinery/pkg/util/intstr", "regexp", "regexp/syntax", "strings", "bytes", "io", "os", "syscall", "path/filepath", "reflect"}
+	return append(append([]string{}, r.spec.InitPkgs...), []string{"github.com/koordinator-sh/koordinator/", "fmt", "k8s.io/apimachinery/pkg/api/resource", "errors", "strconv", "unicode", "unicode/utf8", "sort", "math", "math/bits", "time", "k8s.io/api/core/v1", "k8s.io/apimachinery/pkg/util/sets", "k8s.io/apimachinery/pkg/util/intstr", "regexp", "regexp/syntax", "strings", "bytes", "io", "os", "syscall", "path/filepath", "reflect"}...)
 }
 
 func (r *runner) run(only string) int {
@@ -722,7 +721,30 @@ func (r *runner) nativeRedirects(tmp string, repl map[string]string) error {
 			name = rest[d+1:]
 		}
 		done := false
-		for _, f := range r.syntax[toPkg] {
+		files, fset := r.syntax[toPkg], (*token.FileSet)(nil)
+		if r.prog != nil {
+			fset = r.prog.Fset
+		}
+		if len(files) == 0 {
+			// replay mode: the program is not loaded, parse the package directory
+			fset = token.NewFileSet()
+			dir := filepath.Join(repoDir, strings.TrimPrefix(strings.TrimPrefix(toPkg, "github.com/koordinator-sh/koordinator"), "/"))
+			ents, _ := os.ReadDir(dir)
+			for _, e := range ents {
+				if e.IsDir() || !strings.HasSuffix(e.Name(), ".go") || strings.HasSuffix(e.Name(), "_test.go") {
+					continue
+				}
+				fp := filepath.Join(dir, e.Name())
+				var src any
+				if b, ok := r.overlay[fp]; ok {
+					src = b
+				}
+				if af, err := parser.ParseFile(fset, fp, src, parser.SkipObjectResolution); err == nil {
+					files = append(files, af)
+				}
+			}
+		}
+		for _, f := range files {
 			for _, d := range f.Decls {
 				fd, ok := d.(*ast.FuncDecl)
 				if !ok || fd.Name.Name != name || fd.Body == nil {
@@ -747,7 +769,7 @@ func (r *runner) nativeRedirects(tmp string, repl map[string]string) error {
 				} else if fd.Recv != nil {
 					continue
 				}
-				tf := r.prog.Fset.File(fd.Pos())
+				tf := fset.File(fd.Pos())
 				path := tf.Name()
 				src, ok := r.overlay[path]
 				if !ok {
